@@ -352,9 +352,11 @@ def build_workchain_class(prog, awt):
                 self._vlog.append(('ctx', tuple((k, mval(v.get('value')) if isinstance(v, dict) else mval(v))     # child: outputs
                                                for k, v in self.ctx.__dict__.items()),
                                    tuple(self._vrun.awaitable_done(j + 1) for j in range(len(awt)))))
+                for j in d.get('makes', ()):
+                    self._vrun.awaitable(j)                                               # created (children: launched) here
                 futs = {}
                 if d['cmd'] == 'await':
-                    futs = {awt[j - 1]: self._vrun.awaitable(j) for j in d['aws']}       # created (children: launched) here
+                    futs = {awt[j - 1]: self._vrun.awaitable(j) for j in d['aws']}
                 self._vhooks.fire(self, 'step')
                 return futs
 
@@ -456,7 +458,7 @@ class Run:
         self.proc = None
         kw = {}
         if inputs is not None:
-            kw['inputs'] = inputs
+            kw['inputs'] = dict(inputs)
         if comm:
             kw['communicator'] = self.comm
         self.proc = p = cls(**kw)
